@@ -86,6 +86,13 @@ def run(check, prog):
     # one and the same sign (rule shared with C08)
     from . import c08
     c08.lens_wiring(check, prog)
+    # the lens wrapper turns with the configuration only if what the wrapped
+    # theory returns per point is the matrix relative to the scattering plane
+    # (then A'(theta, phi + a) = A(theta, phi) for the turned particle); a
+    # laboratory-frame matrix is referred to the fixed x, y axes instead.  For the
+    # T-matrix theory this is rule E8's first obligation (shared with C10)
+    from . import c10
+    c10.sphere_limit(check, prog, fields=False)
 
 
 def pin_exact(check, prog):
